@@ -14,11 +14,16 @@ from .common import Rng
 
 OPS = [("oder", "oder"), ("und", "und"), ("logisch oder", "logisch_oder"), ("logisch kontra", "logisch_kontra"),
        ("logisch und", "logisch_und"), ("plus", "plus"), ("minus", "minus"), ("verkettet mit", "verkettet_mit"),
-       ("mal", "mal"), ("durch", "durch"), ("modulo", "modulo")]
+       ("mal", "mal"), ("durch", "durch"), ("modulo", "modulo"),
+       # operators with a closing word behind the right operand
+       ("größer als", "größer_als"), ("kleiner als", "kleiner_als"), ("größer als, oder", "größer_als,_oder"), ("kleiner als, oder", "kleiner_als,_oder"),
+       ("um", "links_verschiebung"), ("um", "rechts_verschiebung")]
+CLOSER = {11: "ist", 12: "ist", 13: "ist", 14: "ist", 15: "Bit nach Links verschoben", 16: "Bit nach Rechts verschoben"}
+NPLAIN = 11     # operators without a closing word (the ones random operand/operator sequences use)
 UOPS = [("nicht", "nicht"), ("logisch nicht", "logisch_nicht"), ("der Betrag von", "Betrag"), ("die Länge von", "Länge")]
 VARS = ["a", "b", "c", "d"]
 # theorem chain_table_from_source pins the table of the model to these numbers
-LV = [0, 1, 2, 3, 4, 8, 8, 8, 9, 9, 9]
+LV = [0, 1, 2, 3, 4, 8, 8, 8, 9, 9, 9, 6, 6, 6, 6, 7, 7]
 N = 10
 HEADER = "".join("Die Zahl %s ist %d.\n" % (v, i + 1) for i, v in enumerate(VARS)) + "Die Zahl x ist 0.\n"
 
@@ -54,7 +59,7 @@ def pp(e, k, rng=None):
         body, need = ["u%d" % e[1]] + pp(e[2], N, rng), False
     else:
         lv = LV[e[1]]
-        body, need = pp(e[2], lv, rng) + ["o%d" % e[1]] + pp(e[3], lv + 1, rng), lv < k       # k < 0: a whole expression, never parenthesised
+        body, need = pp(e[2], lv, rng) + ["o%d" % e[1]] + pp(e[3], lv + 1, rng) + (["c%d" % e[1]] if e[1] in CLOSER else []), lv < k       # k < 0: a whole expression, never parenthesised
     if need or (rng is not None and rng.chance(1, 7)):
         return ["("] + body + [")"]
     return body
@@ -78,7 +83,7 @@ def raw_sequence(rng):
     toks, open_ = [], 0
     for i in range(n):
         if i:
-            toks.append("o%d" % rng.below(len(OPS)))
+            toks.append("o%d" % rng.below(NPLAIN))
         while rng.chance(1, 5):
             toks.append("u%d" % rng.below(len(UOPS)))
         while rng.chance(1, 4):
@@ -88,10 +93,10 @@ def raw_sequence(rng):
                 toks.append("u%d" % rng.below(len(UOPS)))
         toks.append("a%d" % rng.below(9))
         if rng.chance(1, 9):      # a conditional expression starts here; its two further operands are atoms or groups of their own
-            toks += ["f", "a%d" % rng.below(9), "s"] if rng.chance(2, 3) else ["f", "(", "a%d" % rng.below(9), "o%d" % rng.below(len(OPS)), "a%d" % rng.below(9), ")", "s"]
+            toks += ["f", "a%d" % rng.below(9), "s"] if rng.chance(2, 3) else ["f", "(", "a%d" % rng.below(9), "o%d" % rng.below(NPLAIN), "a%d" % rng.below(9), ")", "s"]
             toks.append("a%d" % rng.below(9))
         if rng.chance(1, 14):     # an `entweder` group of its own as operand
-            toks += ["o%d" % rng.below(len(OPS)), "(", "x", "a%d" % rng.below(9), "o%d" % rng.below(len(OPS)), "a%d" % rng.below(9), "y", "a%d" % rng.below(9), ")"]
+            toks += ["o%d" % rng.below(NPLAIN), "(", "x", "a%d" % rng.below(9), "o%d" % rng.below(NPLAIN), "a%d" % rng.below(9), "y", "a%d" % rng.below(9), ")"]
         while open_ and rng.chance(1, 3):
             toks.append(")")
             open_ -= 1
@@ -100,7 +105,7 @@ def raw_sequence(rng):
 
 
 def soup(rng):
-    alphabet = ["a1", "a5", "o5", "o8", "o1", "u0", "u2", "(", ")", "f", "s", "x", "y"]
+    alphabet = ["a1", "a5", "o5", "o8", "o1", "u0", "u2", "(", ")", "f", "s", "x", "y", "o11", "c11", "o15", "c15"]
     return [rng.choice(alphabet) for _ in range(1 + rng.below(6))]
 
 
@@ -122,6 +127,8 @@ def spell(toks):
             out.append(VARS[n] if n < len(VARS) else str(n))
         elif t[0] == "o":
             out.append(OPS[int(t[1:])][0])
+        elif t[0] == "c":
+            out.append(CLOSER[int(t[1:])])
         else:
             out.append(UOPS[int(t[1:])][0])
     return " ".join(out).replace("( ", "(").replace(" )", ")").replace(" ,", ",")
